@@ -117,24 +117,40 @@ func ruleRowCache(p *Prog, r *Result) {
 		if callee == nil || callee.Blocks == nil || ctxIdx >= len(callee.Params) {
 			return false
 		}
-		cp := ssa.Value(callee.Params[ctxIdx])
+		cp0 := ssa.Value(callee.Params[ctxIdx])
+		// the context as the callee sees it: the parameter, or a merge of it with a replacement
+		// (`if ctx == nil { ctx = NewExecuteCtx() }`)
+		ctxVals := map[ssa.Value]bool{cp0: true}
+		for grew := true; grew; {
+			grew = false
+			allInstrs(callee, func(in ssa.Instruction) {
+				if ph, ok := in.(*ssa.Phi); ok && !ctxVals[ph] {
+					for _, e := range ph.Edges {
+						if ctxVals[e] {
+							ctxVals[ph] = true
+							grew = true
+						}
+					}
+				}
+			})
+		}
 		any := false
 		okAll := true
 		allInstrs(callee, func(in ssa.Instruction) {
 			ci, ok := in.(ssa.CallInstruction)
-			if !ok || isClearOn(in, cp) {
+			if !ok {
 				return
 			}
-			uses := false
+			var cp ssa.Value
 			for _, a := range ci.Common().Args {
-				if a == cp {
-					uses = true
+				if ctxVals[a] {
+					cp = a
 				}
 			}
-			if ci.Common().IsInvoke() && ci.Common().Value == cp {
-				uses = true
+			if ci.Common().IsInvoke() && ctxVals[ci.Common().Value] {
+				cp = ci.Common().Value
 			}
-			if !uses {
+			if cp == nil || isClearOn(in, cp) {
 				return
 			}
 			touching := false
